@@ -653,6 +653,9 @@ def pt_add(a, b):
 
 
 def sec(p, compressed):
+    compressed = truth(compressed)
+    if not is_const(compressed):
+        return phi(compressed, ('op', 'SEC', p, TRUE), ('op', 'SEC', p, FALSE))
     return ('op', 'SEC', p, compressed)
 
 
@@ -1024,6 +1027,38 @@ def assume(t, facts, _memo=None):
         r = t
     memo[i] = (t, r)
     return r
+
+
+def phi_conditions(t):
+    out = []
+    for x in walk(t):
+        if tag(x) == 'phi':
+            c = x[1]
+            if c not in out:
+                out.append(c)
+    return out
+
+
+def hoist(t, _depth=0):
+    """Canonical decision-tree form: every Phi is pulled to the root, conditions in a fixed order."""
+    conds = phi_conditions(t)
+    if not conds or _depth > 12:
+        return t
+    # prefer conditions that are not themselves inside other conditions' sub-terms: order by repr
+    c = sorted(conds, key=repr)[0]
+    a = assume(t, {c})
+    b = assume(t, set(_neg_facts(c)))
+    return phi(c, hoist(a, _depth + 1), hoist(b, _depth + 1))
+
+
+def _neg_facts(c):
+    n = not_(c)
+    out = [n]
+    if is_op(n, 'AND'):
+        out.extend(n[2:])
+    if is_op(c, 'OR'):
+        out.extend(not_(x) for x in c[2:])
+    return out
 
 
 # ----------------------------------------------------------------------------
